@@ -42,4 +42,34 @@ def antitoneR : List (Time × Dur) → Bool
 def holdsRoute (deprecated : Bool) (epoch : Time) (L : Dur) (obs : List (Time × Dur)) : Bool :=
   obs.all (routeObsOk deprecated epoch L) && (!deprecated || antitoneR obs)
 
+/-! ### observations over a span of clock readings
+
+When the implementation reads the injected clock more than once while it builds one RA, the
+harness's clock moves between the reads: the readings lie in `[lo, hi]`. The property then
+pins each lifetime between the remaining times at `hi` and at `lo` (hence zero once `lo` has
+reached the deadline and positive while `hi` has not), and still demands `preferred ≤ valid`,
+non-negativity and antitonicity from one RA to the next. For `lo = hi` this is
+`prefixObsOk` / `routeObsOk` (`Props.C16.span_point_*`). -/
+
+def prefixSpanOk (deprecated : Bool) (epoch : Time) (V P : Dur) (o : Time × Time × Dur × Dur) : Bool :=
+  let (lo, hi, v, p) := o
+  if deprecated then
+    decide (remaining epoch V hi ≤ v) && decide (v ≤ remaining epoch V lo) &&
+    decide (remaining epoch P hi ≤ p) && decide (p ≤ remaining epoch P lo) &&
+    decide (0 ≤ v) && decide (0 ≤ p) && decide (p ≤ v)
+  else v == V && p == P
+
+def routeSpanOk (deprecated : Bool) (epoch : Time) (L : Dur) (o : Time × Time × Dur) : Bool :=
+  let (lo, hi, l) := o
+  if deprecated then decide (remaining epoch L hi ≤ l) && decide (l ≤ remaining epoch L lo) && decide (0 ≤ l)
+  else l == L
+
+def holdsPrefixSpan (deprecated : Bool) (epoch : Time) (V P : Dur) (obs : List (Time × Time × Dur × Dur)) : Bool :=
+  obs.all (prefixSpanOk deprecated epoch V P) &&
+    (!deprecated || antitone (obs.map fun (lo, _, v, p) => (lo, v, p)))
+
+def holdsRouteSpan (deprecated : Bool) (epoch : Time) (L : Dur) (obs : List (Time × Time × Dur)) : Bool :=
+  obs.all (routeSpanOk deprecated epoch L) &&
+    (!deprecated || antitoneR (obs.map fun (lo, _, l) => (lo, l)))
+
 end Corerad.Spec.C16
